@@ -248,6 +248,13 @@ theorem eval_fuel_mono (env : Env) (n m : Nat) (hnm : n ≤ m) (c : Cls) (st : S
   unfold run fresh at h ⊢
   rw [eval_mono env hnm c [] st h]
 
+/-- C20 (memoisation part): the keys of the per-line parse caches stay duplicate-free, i.e.
+every `(item, class)` pair is parsed at string level at most once per reader, however often
+the block matcher back-tracks over it (all further queries are cache hits). -/
+theorem parse_cache_once (env : Env) (fuel : Nat) (c : Cls) (st : St) (h : st.seen.Nodup) :
+    (run env fuel c st).2.seen.Nodup :=
+  run_rel (cacheR_ok env) fuel c st h
+
 /-! ## witnesses on a concrete small table -/
 
 namespace W
